@@ -261,7 +261,7 @@ pub fn check_case(case: &Case, ctx: &mut Ctx) -> CaseResult {
 pub fn run(eng: &mut Engine) {
     eng.rule = "cases = generated P-Code programs (1..3 functions, 1..5 blocks each, typed defs over a generated register table with nested sub-registers, same-name smaller varnodes, temporaries, constants, RAM varnodes, cast-to-base idioms, all jump kinds), lifted by the real code and run through normalize_basic and normalize_optimize; after each stage the harness' own typing walk recomputes every expression size; non-trivial = sub-register substitution introduced Piece/Subpiece expressions and the optimizer changed the program; distinct by hash of the normalized program".into();
     eng.assumptions = vec!["generated P-Code obeys the P-Code size typing rules (so any ill-sized IR is introduced by lifting/normalization)".into()];
-    let cases = eng.tier.pick(60_000u64, 2_000_000u64);
+    let cases = eng.tier.pick(250_000u64, 2_000_000u64);
     eng.random(
         "lift-normalize-typing",
         RandomSpec { cases, max_tape: 1500 },
